@@ -5,7 +5,7 @@ import AgModel.Exec.ShredEnv
 
     ops
       slice slot idx last hasParent pslot hseed len a b tail…   -> `plen <n> fp <fnv>`
-      shred <r|c|p|a> keyseed                                    -> `ok sb <n> nd <n> nc <n> dfp <fnv|->` | `err TooMuchData` | `panic`
+      shred <r|c|p|a> keyseed [o]                                -> `ok sb <n> nd <n> nc <n> dfp <fnv|->` | `err TooMuchData` | `panic`
       deshred <r|c|p|a> <mask: 64 × 0/1> edits…                  -> `ok hdr s i l par <fnv|-> data <fnv> len <n> eq <n>` | `err <Kind> same <0|1>` | `panic`
         edits: `f i` flip the data/coding tag of entry i; `m i j` store entry i (also) at position j
 -/
@@ -32,7 +32,7 @@ def step (st : St) (ws : List String) : St × List String :=
     let sl := mkSlice (nat! slot) (nat! idx) (nat! last) (nat! hasP) (nat! pslot) (nat! hseed) (nat! len) (nat! a) (nat! b) (nats tail)
     let pb := payloadBytes sl.parent sl.data
     ({ st with slice := sl, out := [] }, [s!"plen {pb.length} fp {fnv pb}"])
-  | ["shred", v, keyseed] =>
+  | "shred" :: v :: keyseed :: _ =>
     let v := variantOf v
     match shred toyEnv v st.slice 1 (keyOf (nat! keyseed)) with
     | .ok out =>
